@@ -17,6 +17,7 @@ META = {
                     "self-checked against brute-force rational sampling",
                     "boxes are registered through the public addObstruction(lo, hi) with lo <= hi component-wise"],
 }
+REQUIRED_REACH = ['path_planning/pathplanner.py:RRTStar.obstruction', 'path_planning/pathplanner.py:RRTStar.addObstruction']
 REQUIRED_CLAUSES = ["lattice", "float", "sets"]
 
 PTS = np.array(list(itertools.product(range(-3, 4), repeat=3)), dtype=np.int64)          # 343
